@@ -140,8 +140,14 @@ def run_property(prop: str, root: str = "/repo", thorough: bool = False) -> int:
         if thorough:
             from .selfval import selfvalidate
 
+            from .selfval import corpus_check
+
             sv = selfvalidate(prop, root)
             extra["self_validation"] = sv
+            cc = corpus_check(prop, root)
+            extra["independent_seed_corpus"] = cc
+            if cc["missed"]:
+                sv["failed"].append("independent seeds no longer detected: " + ", ".join(cc["missed"]))
             if sv["failed"]:
                 raise AnalysisError(
                     "self-validation failed (the checker, not the repository, is broken): "
